@@ -31,7 +31,7 @@ ANCHORS = ['manifest:ManifestFile.load', 'openpgp:SystemGPGEnvironment.verify_fi
            'openpgp:SystemGPGEnvironment._spawn_gpg']
 REQUIRED = ['manifest:ManifestFile.load', 'seq:accepted-signed', 'seq:rejected',
             'mock_verify_calls', 'gpg:accepted', 'gpg:rejected',
-            'gpg:rejected-on-reused-object', 'gpg:resign_cases']
+            'gpg:rejected-on-reused-object', 'gpg:resign_cases', 'gpg:filejunk_cases']
 ASSUMPTIONS = ['(a) uses a mock OpenPGP environment: the framing logic is what is '
                'decided there; (b) is relative to the installed GnuPG',
                'armor-like lines inside the armor-header section, and an END line '
@@ -98,6 +98,8 @@ def units(tier, seed):
         u.append({'k': 'reload', 'i': i})
     for i in range(6 if tier == 'quick' else 60):
         u.append({'k': 'resign', 'i': i})
+    for i in range(32):
+        u.append({'k': 'filejunk', 'i': i})
     return u
 
 
@@ -340,6 +342,9 @@ def run_unit(u, ctx):
     elif u['k'] == 'resign':
         from vf.checks import c04gpg
         c04gpg.run_resign(u, ctx)
+    elif u['k'] == 'filejunk':
+        from vf.checks import c04gpg
+        c04gpg.run_filejunk(u, ctx)
     else:
         run_gpg(u, ctx)
 
@@ -351,6 +356,9 @@ def replay(case, ctx):
     elif case.get('kind') == 'resign':
         from vf.checks import c04gpg
         c04gpg.run_resign({'i': case['i']}, ctx)
+    elif case.get('kind') == 'filejunk':
+        from vf.checks import c04gpg
+        c04gpg.run_filejunk({'i': case['i']}, ctx)
     elif case.get('kind') == 'gpgtext':
         from vf.checks import c04gpg
         c04gpg.replay(case, ctx)
